@@ -1066,6 +1066,22 @@ def run_subquery_nulls(ctx, rounds):
 
 # ---------------------------------------------------------------- correlated EXISTS / NOT EXISTS / COUNT over a collection (Model/QRel.lean)
 
+def inner_key(e, src, params, form, rows_for_semantics=None):
+    """canonical class of a failing INNER condition: in the generator form the condition reaches the translator as the decompiler
+    rewrote it (`not (x in s)` arrives as `x not in s`, …) — classify on that expression"""
+    tex = None
+    if form == 'generator':
+        try:
+            from pony.orm.decompiling import decompile
+            tex = Q.expr_of_ast(decompile(eval('lambda e: %s' % src, dict(params)))[0])
+        except Exception:
+            tex = None
+    changed = False
+    if tex is not None and rows_for_semantics:
+        changed = any(Q.as_k(Q.py_eval(tex, r, params)) != Q.as_k(Q.py_eval(e, r, params)) for r in rows_for_semantics)
+    return classify(e, form if form == 'generator' else 'string', changed, tex)
+
+
 def run_exists(ctx, n_exprs):
     """`exists(e for e in p.es if COND)`, `not exists(…)`, `count(e for e in p.es if COND) == k` with COND from the fragment generator
     over the child entity E (reference `parent` may be NULL): (1) the real EXISTS node is decoded and its inner conditions submitted
@@ -1112,7 +1128,7 @@ def run_exists(ctx, n_exprs):
                         small = e
                         ctx.violation('parents returned by a query with a correlated sub-query over a collection differ from Python (%s, %s form)' % (kind, form),
                                       {'query': 'select(%s)' % qsrc, 'params': {x: params[x] for x in params if x in src}, 'children (parent, row)': [(fk, {a: r[a] for a in sorted({s_[1] for s_ in Q.subexprs(e) if s_[0] == 'attr'})}) for fk, r in zip(fks, rows)][:8]},
-                                      observed=got, expected=exp, key=(classify(e, 'string', False) or 'exists:%s:%s' % (kind, json.dumps(Q.to_json(Q.canon_atoms(e))))))
+                                      observed=got, expected=exp, key=(inner_key(e, src, params, form, rows) or 'exists:%s:%s:%s' % (kind, form, json.dumps(Q.to_json(Q.canon_atoms(e))))))
                     if form == 'string' and kind in ('exists', 'not-exists'):
                         ast_ = Q.norm_ast(q._translator.conditions)
                         if len(ast_) == 1:
@@ -1206,7 +1222,7 @@ def run_joins(ctx, n_exprs):
                     if got != exp:
                         ctx.violation('a condition that navigates through a to-one reference returns other rows than Python on the rows whose reference is present (%s, %s form)' % (ref, form),
                                       {'query': 'select(%s)' % qsrc, 'params': {x: params[x] for x in params if x in src}}, observed=got, expected=exp,
-                                      key=(classify(e, 'string', False) or 'join:%s:%s' % (ref, json.dumps(Q.to_json(Q.canon_atoms(e))))))
+                                      key=(inner_key(e, src, params, form, rows_j) or 'join:%s:%s:%s' % (ref, form, json.dumps(Q.to_json(Q.canon_atoms(e))))))
                     if dropped: ctx.count('join:optional-reference:rows-python-would-also-select(known finding)')
                     if form == 'string':
                         sch_r = sch if ref == 'parent' else dict(sch, attrs=dict(sch['attrs'], **{k_: [v_[0], True] for k_, v_ in PARENT_ATTRS.items()}))   # through an optional reference every attribute may be missing (26b85c0)
@@ -1280,6 +1296,62 @@ def run_temporal(ctx, n):
     db.disconnect()
 
 
+def run_exists_m2m(ctx, n_exprs):
+    """many-to-many: `exists / not exists(e for e in s.es if COND)` through a link table, COND from the fragment generator; the real
+    EXISTS node is decoded (link table, join on the child's key, correlation on the parent's key) and its inner conditions go to the
+    verified checker (op checkexistsm; C01_exists_m2m); parents returned vs Python any(...) over the linked children (several
+    parents share a child, one parent has none)."""
+    rng = ctx.rng
+    db = Database()
+    class S(db.Entity):
+        es = Set('E')
+    class E(db.Entity):
+        a = Required(int); c = Required(int); n = Optional(int); m = Optional(int)
+        b = Required(bool); nb = Optional(bool)
+        s = Required(str); t = Optional(str); ns = Optional(str, nullable=True)
+        owners = Set(S)
+    db.bind('sqlite', ':memory:'); db.generate_mapping(create_tables=True)
+    rows = [Q.random_row(rng) for _ in range(ctx.scale(12, 24))]
+    links = [sorted(rng.sample([1, 2, 3], rng.choice([0, 1, 1, 2, 3]))) for _ in rows]
+    with db_session:
+        ss = [S() for _ in range(4)]
+        for r, ls in zip(rows, links):
+            E(owners=[ss[i - 1] for i in ls], **{k: v for k, v in r.items() if v is not None})
+    gen = Q.Gen(rng, 'frag'); sch = Q.schema_json()
+    reqs, meta = [], []
+    with db_session:
+        for _ in range(n_exprs):
+            e = gen.expr(rng.choice([1, 2, 2, 3]))
+            params = Q.random_params(rng); src = Q.src(e)
+            G = dict(params); G.update(S=S, E=E, select=select, exists=exists)
+            sel = [Q.as_k(Q.py_eval(e, r, params)) == Q.TT for r in rows]
+            has = {pk: any(ok and pk in ls for ok, ls in zip(sel, links)) for pk in (1, 2, 3, 4)}
+            for neg in (False, True):
+                qsrc = 'x.id for x in S if %sexists(e for e in x.es if %s)' % ('not ' if neg else '', src)
+                exp = sorted(pk for pk in has if has[pk] != neg)
+                for form in ('string', 'generator'):
+                    ctx.case(['exists-m2m', neg, form, src], kind='exists-m2m:' + form)
+                    try:
+                        q = select(qsrc, G) if form == 'string' else eval('select(%s)' % qsrc, G)
+                        got = sorted(q[:])
+                    except Exception as ex:
+                        ctx.count('exists-m2m:%s:raises:%s' % (form, type(ex).__name__)); continue
+                    if got != exp:
+                        ctx.violation('parents returned by a query with a sub-query over a many-to-many collection differ from Python (%s form)' % form,
+                                      {'query': 'select(%s)' % qsrc, 'params': {x: params[x] for x in params if x in src}, 'children (owners, row)': [(ls, {a: r[a] for a in sorted({s_[1] for s_ in Q.subexprs(e) if s_[0] == 'attr'})}) for ls, r in zip(links, rows)][:8]},
+                                      observed=got, expected=exp, key=(inner_key(e, src, params, form, rows) or 'exists-m2m:%s:%s' % (form, json.dumps(Q.to_json(Q.canon_atoms(e))))))
+                    if form == 'string':
+                        ast_ = Q.norm_ast(q._translator.conditions)
+                        if len(ast_) == 1:
+                            reqs.append({'op': 'checkexistsm', 'dialect': 'sqlite', 'schema': sch, 'expr': Q.to_json(e), 'ast': ast_[0], 'parent': 'x', 'child': 'e'}); meta.append((qsrc, neg))
+    db.disconnect()
+    if not ctx.driver.ok: return
+    for (qsrc, neg), out in zip(meta, ctx.driver('C01', reqs)):
+        if out.get('accepted') and out.get('negated') == neg: ctx.count('exists-m2m:checker-accepted')
+        elif out.get('frag'): ctx.divergence('the verified checker rejects the many-to-many sub-query the real translator emitted', {'query': qsrc}, model=out, impl=None)
+        else: ctx.count('exists-m2m:checker-not-applicable(outside fragment)')
+
+
 def run_optional_ref_witness(ctx):
     """navigation through an OPTIONAL reference adds an inner join that drops every row whose reference is missing"""
     db = Database()
@@ -1310,6 +1382,7 @@ def run(ctx):
     steps = [
         ('witnesses', lambda: (run_witnesses(ctx), run_optional_ref_witness(ctx), run_tuple_and_refset_witnesses(ctx), run_subquery_null_witness(ctx), run_arith_witnesses(ctx))),
         ('exists', lambda: run_exists(ctx, ctx.scale(40, 400))),
+        ('exists-m2m', lambda: run_exists_m2m(ctx, ctx.scale(30, 300))),
         ('joins', lambda: run_joins(ctx, ctx.scale(40, 400))),
         ('temporal', lambda: run_temporal(ctx, 0)),
         ('subquery-nulls', lambda: run_subquery_nulls(ctx, ctx.scale(4, 40))),
